@@ -80,7 +80,7 @@ def confirm_metamorphic(ctx, cls, ex, s):
 def run(ctx):
     vp.cargo_build([c16.DRIVER])
     quick = ctx.quick
-    budget = 400_000 if quick else 5_000_000
+    budget = 400_000 if quick else 2_000_000
     ctx.assumptions += [
         "relocation = byte copy of header + payload to a fresh slot at a different in-slot offset (multiples of 16), old "
         "slot filled with 0xA5 and mprotect(PROT_NONE); a child process per (structure, flavour, capacity, mode)",
@@ -122,7 +122,7 @@ def run(ctx):
                     o = common + ["--walks", walks, "--steps", steps] + (["--exclude", ",".join(excl)] if excl else [])
                     jobs.append(((automata[kind], kind, fl, cap, "random", o), {"salt": 200 + n}))
                 tf = ctx.path("traces", f"{kind}-{fl}-{cap}.ndjson")
-                walks, steps = (2, 60) if quick else (4, 250)
+                walks, steps = (2, 60) if quick else (3, 150)
                 o = common + ["--walks", walks, "--steps", steps, "--trace-out", tf] + (["--exclude", "insert_at"] if kind == "slotmap" else [])
                 jobs.append(((automata[kind], kind, fl, cap, "random", o), {"salt": 9}))
                 trace_jobs.setdefault(kind, []).append((tf, walks))
